@@ -11,6 +11,7 @@ import (
 	"runtime/debug"
 	"sort"
 	"strings"
+	"sync"
 
 	"seatalint/internal/core"
 	"seatalint/internal/rules"
@@ -68,6 +69,7 @@ func selftest(args []string) int {
 	root := fs.String("root", "/repo", "repository root")
 	verif := fs.String("verif", "/verif", "verif dir")
 	only := fs.String("property", "", "only this property")
+	workers := fs.Int("j", 6, "variants checked at a time (one process, one load each)")
 	_ = fs.Parse(args)
 	files, _ := filepath.Glob(filepath.Join(*verif, "mutants", "*", "*.json"))
 	sort.Strings(files)
@@ -91,6 +93,18 @@ func selftest(args []string) int {
 		}
 	}
 	bad, ran, skipped := 0, 0, 0
+	// one process per variant (a fresh load each); several at a time, each worker in its own scratch verif directory
+	type job struct {
+		idx  int
+		f    string
+		m    mutant
+		name string
+	}
+	type result struct {
+		text          string
+		ok, skip, bad bool
+	}
+	var jobs []job
 	for _, f := range files {
 		b, err := os.ReadFile(f)
 		if err != nil {
@@ -105,29 +119,70 @@ func selftest(args []string) int {
 		if *only != "" && m.Property != *only {
 			continue
 		}
-		ov := filepath.Join(scratch, "ov.json")
-		eb, _ := json.Marshal(m.Edits)
-		_ = os.WriteFile(ov, eb, 0o644)
-		cmd := exec.Command(self, "check", m.Property, "-root", *root, "-verif", scratch, "-overlay", ov)
-		out, _ := cmd.CombinedOutput()
-		code := cmd.ProcessState.ExitCode()
-		name := strings.TrimPrefix(f, filepath.Join(*verif, "mutants")+"/")
+		jobs = append(jobs, job{len(jobs), f, m, strings.TrimPrefix(f, filepath.Join(*verif, "mutants")+"/")})
+	}
+	results := make([]result, len(jobs))
+	nw := *workers
+	if nw < 1 {
+		nw = 1
+	}
+	ch := make(chan job)
+	var wg sync.WaitGroup
+	for wi := 0; wi < nw; wi++ {
+		wdir := filepath.Join(scratch, fmt.Sprintf("w%d", wi))
+		_ = os.MkdirAll(wdir, 0o755)
+		for _, sub := range []string{"known_findings.json", "spec"} {
+			src := filepath.Join(scratch, sub)
+			if st, err := os.Stat(src); err == nil {
+				if st.IsDir() {
+					_ = os.Symlink(src, filepath.Join(wdir, sub))
+				} else if b, err := os.ReadFile(src); err == nil {
+					_ = os.WriteFile(filepath.Join(wdir, sub), b, 0o644)
+				}
+			}
+		}
+		wg.Add(1)
+		go func(wdir string) {
+			defer wg.Done()
+			for jb := range ch {
+				m, name := jb.m, jb.name
+				ov := filepath.Join(wdir, "ov.json")
+				eb, _ := json.Marshal(m.Edits)
+				_ = os.WriteFile(ov, eb, 0o644)
+				cmd := exec.Command(self, "check", m.Property, "-root", *root, "-verif", wdir, "-overlay", ov)
+				out, _ := cmd.CombinedOutput()
+				code := cmd.ProcessState.ExitCode()
+				var res result
+				switch {
+				case code == 3:
+					res = result{text: fmt.Sprintf("selftest %-60s SKIPPED (the text it edits is not in the current tree)", name), skip: true}
+				case m.Silent && code == 0:
+					res = result{text: fmt.Sprintf("selftest %-60s ok (silent as expected)", name), ok: true}
+				case m.Silent:
+					res = result{text: fmt.Sprintf("SELFTEST-FAILED %s: a variant on which the property holds raised an alarm\n%s", name, firstLines(string(out), "VIOLATED", "UNDECIDED", "LOADER")), bad: true}
+				case code == 1 && fired(string(out), m.Expect):
+					res = result{text: fmt.Sprintf("selftest %-60s ok (reported %s)", name, m.Expect), ok: true}
+				default:
+					res = result{text: fmt.Sprintf("SELFTEST-FAILED %s: expected a report of %s, exit=%d\n%s", name, m.Expect, code, firstLines(string(out), "VIOLATED", "UNDECIDED", "LOADER", "==")), bad: true}
+				}
+				results[jb.idx] = res
+			}
+		}(wdir)
+	}
+	for _, jb := range jobs {
+		ch <- jb
+	}
+	close(ch)
+	wg.Wait()
+	for _, res := range results {
+		fmt.Println(res.text)
 		switch {
-		case code == 3:
+		case res.ok:
+			ran++
+		case res.skip:
 			skipped++
-			fmt.Printf("selftest %-60s SKIPPED (the text it edits is not in the current tree)\n", name)
-		case m.Silent && code == 0:
-			ran++
-			fmt.Printf("selftest %-60s ok (silent as expected)\n", name)
-		case m.Silent:
+		case res.bad:
 			bad++
-			fmt.Printf("SELFTEST-FAILED %s: a variant on which the property holds raised an alarm\n%s\n", name, firstLines(string(out), "VIOLATED", "UNDECIDED", "LOADER"))
-		case code == 1 && fired(string(out), m.Expect):
-			ran++
-			fmt.Printf("selftest %-60s ok (reported %s)\n", name, m.Expect)
-		default:
-			bad++
-			fmt.Printf("SELFTEST-FAILED %s: expected a report of %s, exit=%d\n%s\n", name, m.Expect, code, firstLines(string(out), "VIOLATED", "UNDECIDED", "LOADER", "=="))
 		}
 	}
 	fmt.Printf("selftest: %d variants behaved as expected, %d skipped, %d failed\n", ran, skipped, bad)
